@@ -147,6 +147,8 @@ func init() {
 			},
 			func(c *Ctx) { c.ruleReflect("R-REFLECT", c.scopeData()); c.R.Floor("R-REFLECT", 10) },
 			func(c *Ctx) { c.ruleHashKey("R-HASHKEY", c.scopeData()); c.R.Floor("R-HASHKEY", 1) },
+			func(c *Ctx) { c.ruleDivZero("R-DIVZERO", c.scopeData()); c.R.Floor("R-DIVZERO", 1) },
+			func(c *Ctx) { c.ruleTerm("R-TERM", c.entryData(), false); c.R.Floor("R-TERM", 4) },
 		},
 	})
 	register(&PropSpec{
@@ -258,6 +260,11 @@ func init() {
 			},
 			func(c *Ctx) { c.ruleForward("R-FORWARD") },
 			func(c *Ctx) {
+				c.ruleDivZero("R-DIVZERO", c.reachableOutsideRecover(append(c.entryLoad(), c.entryData()...)))
+				c.R.Floor("R-DIVZERO", 1)
+			},
+			func(c *Ctx) { c.ruleTerm("R-TERM", c.entryData(), false); c.R.Floor("R-TERM", 4) },
+			func(c *Ctx) {
 				fns := map[*ssa.Function]bool{}
 				for _, f := range c.entryLoad() {
 					fns[f] = true
@@ -294,6 +301,7 @@ func init() {
 			func(c *Ctx) { c.ruleOverlap("R-OVERLAP") },
 			func(c *Ctx) { c.ruleKindGate("R-KINDGATE") },
 			func(c *Ctx) { c.ruleBoundsConsulted("R-MUSTUSE") },
+			func(c *Ctx) { c.ruleTerm("R-TERM", c.entryData("ValidateCompatibility"), true); c.R.Floor("R-TERM", 1) },
 			func(c *Ctx) {
 				fns := map[*ssa.Function]bool{}
 				for _, f := range c.compatFuncs() {
